@@ -32,7 +32,7 @@ import itertools
 from .core import AnalysisError
 from .ordabs import Ev, ModelRaise, Obj, Unsupported
 
-METHODS = ("push", "pop", "clear", "snapshot", "restore", "drop_snapshot", "peek", "empty", "__len__")
+METHODS = ("push", "pop", "clear", "snapshot", "restore", "drop_snapshot", "peek", "empty", "__len__", "__iter__", "__getitem__")
 
 
 def seg(s: list, rc: int, ic: int) -> list:
@@ -119,6 +119,12 @@ def spec(method: str, items: list, ghost: list[list], arg: object) -> tuple[list
         return items, ghost, not items, False
     if method == "__len__":
         return items, ghost, len(items), False
+    if method == "__iter__":
+        return items, ghost, list(items), False
+    if method == "__getitem__":
+        if not items:
+            return items, ghost, None, True
+        return items, ghost, items[arg], False
     raise AnalysisError(f"no specification for Stack.{method}")
 
 
@@ -133,7 +139,7 @@ def check_method(fn: ast.FunctionDef, where: str, method: str, max_snapshots: in
         n += 1
         me = Obj("Stack", items=list(items), popped=list(popped), lengths=list(lengths))
         env: dict = {params[0]: me}
-        arg = "x"
+        arg: object = -1 if method == "__getitem__" else "x"
         if len(params) == 2:
             env[params[1]] = arg
         elif len(params) > 2:
